@@ -153,13 +153,19 @@ class LineRun:
                 traces = spec.get('trace') or []
                 for k, d in enumerate(spec['horizon']):
                     tr = bool(traces[k]) if k < len(traces) else False
+                    t_before = self.model.env.now
                     self.model.system.simulate(d, trace=tr, print_summary=False)
+                    if self.prop == 'C01' and self.model.env.now != t_before + d and not self.failed:
+                        self.report('run_window', f'System.simulate({d!r}) called at {t_before!r} ended with the clock at '
+                                    f'{self.model.env.now!r}, expected {t_before + d!r}')
+                        raise CaseAbort()
                     # the end of a run is a quiescent point too
                     self.before_advance(self.model.env, None)
                     gaps = spec.get('between') or []
                     if k < len(gaps) and k + 1 < len(spec['horizon']):
                         for op in gaps[k]:
-                            build_mod.ScriptAction(self.model.world, op, self.model.log)()
+                            with instrument.external(bus):
+                                build_mod.ScriptAction(self.model.world, op, self.model.log)()
                             self.count('operations_between_runs')
                             # every operation issued from outside is a boundary of its own (two of them may
                             # cancel out, e.g. shutdown then restore)
